@@ -1,0 +1,65 @@
+//go:build verif
+// +build verif
+
+package rtmp
+
+import "sort"
+
+// Read-only projections of the protocol state, only built with the verif tag;
+// used by the model-based checks in /verif.
+
+// VerifChunkSizes reports the input and output chunk size.
+func (v *Protocol) VerifChunkSizes() (in, out uint32) {
+	return v.input.opt.chunkSize, v.output.opt.chunkSize
+}
+
+// VerifPending reports the outstanding transactions as "tid=name" sorted by tid.
+func (v *Protocol) VerifPending() (tids []float64, names []string) {
+	v.input.ltransactions.Lock()
+	defer v.input.ltransactions.Unlock()
+
+	for tid := range v.input.transactions {
+		tids = append(tids, float64(tid))
+	}
+	sort.Float64s(tids)
+	for _, tid := range tids {
+		for k, name := range v.input.transactions {
+			if float64(k) == tid {
+				names = append(names, string(name))
+			}
+		}
+	}
+	return
+}
+
+// VerifChunkStream is the projection of one chunk stream of the reader.
+type VerifChunkStream struct {
+	Cid       uint32
+	Count     uint64
+	Partial   int
+	HasMsg    bool
+	Extended  bool
+	Timestamp uint64
+}
+
+// VerifChunkStreams reports the reader's chunk streams sorted by chunk stream id.
+func (v *Protocol) VerifChunkStreams() (r []VerifChunkStream) {
+	for cid, c := range v.input.chunks {
+		s := VerifChunkStream{Cid: uint32(cid), Count: c.count, Extended: c.extendedTimestamp, Timestamp: c.header.Timestamp}
+		if c.message != nil {
+			s.HasMsg, s.Partial = true, len(c.message.Payload)
+		}
+		r = append(r, s)
+	}
+	sort.Slice(r, func(i, j int) bool { return r[i].Cid < r[j].Cid })
+	return
+}
+
+// VerifStreamID reports the message stream id of a message.
+func (v *Message) VerifStreamID() uint32 { return v.streamID }
+
+// VerifCid reports the chunk stream id the message prefers or arrived on.
+func (v *Message) VerifCid() uint32 { return uint32(v.betterCid) }
+
+// VerifSetCid sets the chunk stream id the writer uses for the message.
+func (v *Message) VerifSetCid(cid uint32) { v.betterCid = chunkID(cid) }
